@@ -22,3 +22,101 @@ verif_harness! {
         Some(r.is_err() == rd::is_nist_weak(u64::from_be_bytes(key)))
     }
 }
+
+fn tdes_expect(k: &[u8], parts: usize) -> bool {
+    let mut weak = false;
+    let mut i = 0;
+    while i < parts {
+        weak |= rd::is_nist_weak(part(k, i));
+        let mut j = 0;
+        while j < i {
+            weak |= same_des_key(part(k, i), part(k, j));
+            j += 1;
+        }
+        i += 1;
+    }
+    weak
+}
+
+//@ harness name=tdes_ede3_weak_exact prop=C13 tier=quick bits=192 desc="TdesEde3::weak_key_test fails <=> some 8-byte part is a NIST key (mod parity) or two parts are the same DES key (mod parity); all 2^192 keys"
+verif_harness! {
+    name: tdes_ede3_weak_exact,
+    bytes: 24,
+    unwind: 66,
+    prop: |inp| {
+        let key = *inp;
+        Some(<TdesEde3 as KeyInit>::weak_key_test(&key.into()).is_err() == tdes_expect(&key, 3))
+    }
+}
+//@ harness name=tdes_eee3_weak_exact prop=C13 tier=quick bits=192 desc="TdesEee3::weak_key_test: same predicate as Ede3; all 2^192 keys"
+verif_harness! {
+    name: tdes_eee3_weak_exact,
+    bytes: 24,
+    unwind: 66,
+    prop: |inp| {
+        let key = *inp;
+        Some(<TdesEee3 as KeyInit>::weak_key_test(&key.into()).is_err() == tdes_expect(&key, 3))
+    }
+}
+//@ harness name=tdes_ede2_weak_exact prop=C13 tier=quick bits=128 desc="TdesEde2::weak_key_test fails <=> a part is a NIST key or both parts are the same DES key (mod parity); all 2^128 keys"
+verif_harness! {
+    name: tdes_ede2_weak_exact,
+    bytes: 16,
+    unwind: 66,
+    prop: |inp| {
+        let key = *inp;
+        Some(<TdesEde2 as KeyInit>::weak_key_test(&key.into()).is_err() == tdes_expect(&key, 2))
+    }
+}
+//@ harness name=tdes_eee2_weak_exact prop=C13 tier=quick bits=128 desc="TdesEee2::weak_key_test: same predicate as Ede2; all 2^128 keys"
+verif_harness! {
+    name: tdes_eee2_weak_exact,
+    bytes: 16,
+    unwind: 66,
+    prop: |inp| {
+        let key = *inp;
+        Some(<TdesEee2 as KeyInit>::weak_key_test(&key.into()).is_err() == tdes_expect(&key, 2))
+    }
+}
+
+// new_checked: fails exactly when weak_key_test does, else same state as new (key schedule run for real twice).
+fn state_eq<T>(a: &T, b: &T) -> bool {
+    let pa = a as *const T as *const u8;
+    let pb = b as *const T as *const u8;
+    let mut i = 0;
+    while i < core::mem::size_of::<T>() {
+        if unsafe { *pa.add(i) != *pb.add(i) } {
+            return false;
+        }
+        i += 1;
+    }
+    true
+}
+//@ harness name=des_new_checked prop=C13 tier=quick bits=64 desc="Des::new_checked(k) is Err <=> weak_key_test(k) is Err, and on Ok its subkeys equal Des::new(k)'s; all 2^64 keys"
+verif_harness! {
+    name: des_new_checked,
+    bytes: 8,
+    unwind: 130,
+    prop: |inp| {
+        let key = *inp;
+        let weak = <Des as KeyInit>::weak_key_test(&key.into()).is_err();
+        match <Des as KeyInit>::new_checked(&key.into()) {
+            Err(_) => Some(weak),
+            Ok(c) => Some(!weak && state_eq(&c, &Des::new(&key.into()))),
+        }
+    }
+}
+//@ harness name=tdes_ede3_new_checked prop=C13 tier=quick bits=192 desc="TdesEde3::new_checked(k) is Err <=> weak_key_test(k) is Err, and on Ok its state equals new(k)'s; all 2^192 keys"
+verif_harness! {
+    name: tdes_ede3_new_checked,
+    bytes: 24,
+    unwind: 400,
+    prop: |inp| {
+        let key = *inp;
+        let weak = <TdesEde3 as KeyInit>::weak_key_test(&key.into()).is_err();
+        match <TdesEde3 as KeyInit>::new_checked(&key.into()) {
+            Err(_) => Some(weak),
+            Ok(c) => Some(!weak && state_eq(&c, &TdesEde3::new(&key.into()))),
+        }
+    }
+}
